@@ -2,6 +2,7 @@ package main
 
 import (
 	"fmt"
+	"go/constant"
 	"go/token"
 	"go/types"
 	"sort"
@@ -209,7 +210,7 @@ func isUnsigned(t types.Type) bool {
 
 // predSet returns the set of values of m (of the given width) for which the
 // comparison cond is true. ok=false when cond is not a recognised predicate on m.
-func predSet(cond ssa.Value, m ssa.Value, width uint) (vset, bool) {
+func predSetSym(cond ssa.Value, m ssa.Value, width uint) (vset, bool) {
 	switch x := cond.(type) {
 	case *ssa.UnOp:
 		if x.Op == token.NOT {
@@ -430,6 +431,21 @@ func (e *bitEnv) eval(v ssa.Value) bitvec {
 		case token.SHR, token.SHL:
 			k, ok := constUint(x.Y)
 			a := e.eval(x.X)
+			if !ok {
+				// a shift count bound to a constant (a parameter of a helper called with constants)
+				if bv, has := e.vals[x.Y]; has {
+					k, ok = 0, true
+					for i := 0; i < 64; i++ {
+						switch bv[i].kind {
+						case '1':
+							k |= 1 << uint(i)
+						case '0':
+						default:
+							ok = false
+						}
+					}
+				}
+			}
 			if !ok || k >= 64 {
 				e.ok = false
 				e.why = "variable shift"
@@ -515,4 +531,140 @@ func (e *bitEnv) boolSource(cond ssa.Value) (bitSrc, bool) {
 		return bitSrc{}, false
 	}
 	return src, true
+}
+
+
+// predSet: the values of the word m (of the given width) for which cond holds.
+// Conditions outside the symbolic fragment are decided by enumeration when the
+// word is small (a state or a flag byte): the expression is evaluated for each
+// of its values with the arithmetic of its Go types.
+func predSet(cond ssa.Value, m ssa.Value, width uint) (vset, bool) {
+	if s, ok := predSetSym(cond, m, width); ok {
+		return s, true
+	}
+	if width > 16 {
+		return nil, false
+	}
+	var out vset
+	for x := uint64(0); x < uint64(1)<<width; x++ {
+		v, ok := evalWith(cond, m, x, 0)
+		if !ok {
+			return nil, false
+		}
+		if v != 0 {
+			out = out.union(vset{{x, x}})
+		}
+	}
+	return out.norm(), true
+}
+
+// evalWith evaluates an integer or boolean expression over the word m = x.
+func evalWith(v ssa.Value, m ssa.Value, x uint64, depth int) (uint64, bool) {
+	if depth > 12 {
+		return 0, false
+	}
+	trunc := func(r uint64, t types.Type) uint64 {
+		if b, ok := t.Underlying().(*types.Basic); ok {
+			switch b.Kind() {
+			case types.Uint8, types.Int8:
+				return r & 0xff
+			case types.Uint16, types.Int16:
+				return r & 0xffff
+			case types.Uint32, types.Int32:
+				return r & 0xffffffff
+			}
+		}
+		return r
+	}
+	if v == m || stripSameWidth(v) == m {
+		return x, true
+	}
+	if k, ok := constUint(v); ok {
+		return k, true
+	}
+	b2u := func(b bool) uint64 {
+		if b {
+			return 1
+		}
+		return 0
+	}
+	switch e := v.(type) {
+	case *ssa.Const:
+		if e.Value != nil && e.Value.Kind() == constant.Bool {
+			return b2u(constant.BoolVal(e.Value)), true
+		}
+	case *ssa.Convert:
+		r, ok := evalWith(e.X, m, x, depth+1)
+		if !ok {
+			return 0, false
+		}
+		return trunc(r, e.Type()), true
+	case *ssa.ChangeType:
+		return evalWith(e.X, m, x, depth+1)
+	case *ssa.UnOp:
+		r, ok := evalWith(e.X, m, x, depth+1)
+		if !ok {
+			return 0, false
+		}
+		switch e.Op {
+		case token.NOT:
+			return b2u(r == 0), true
+		case token.XOR:
+			return trunc(^r, e.Type()), true
+		}
+	case *ssa.BinOp:
+		l, ok1 := evalWith(e.X, m, x, depth+1)
+		r, ok2 := evalWith(e.Y, m, x, depth+1)
+		if !ok1 || !ok2 {
+			return 0, false
+		}
+		// only unsigned or provably small operands: signed comparisons of large values are not modelled
+		if bt, ok := e.X.Type().Underlying().(*types.Basic); ok && bt.Info()&types.IsUnsigned == 0 && bt.Info()&types.IsBoolean == 0 {
+			if l >= 1<<31 || r >= 1<<31 {
+				return 0, false
+			}
+		}
+		switch e.Op {
+		case token.ADD:
+			return trunc(l+r, e.Type()), true
+		case token.SUB:
+			if bt, ok := e.Type().Underlying().(*types.Basic); ok && bt.Info()&types.IsUnsigned == 0 && l < r {
+				return 0, false
+			}
+			return trunc(l-r, e.Type()), true
+		case token.MUL:
+			return trunc(l*r, e.Type()), true
+		case token.AND:
+			return l & r, true
+		case token.OR:
+			return l | r, true
+		case token.XOR:
+			return l ^ r, true
+		case token.AND_NOT:
+			return l &^ r, true
+		case token.SHL:
+			if r >= 64 {
+				return 0, true
+			}
+			return trunc(l<<r, e.Type()), true
+		case token.SHR:
+			if r >= 64 {
+				return 0, true
+			}
+			return l >> r, true
+		case token.EQL:
+			return b2u(l == r), true
+		case token.NEQ:
+			return b2u(l != r), true
+		case token.LSS:
+			return b2u(l < r), true
+		case token.LEQ:
+			return b2u(l <= r), true
+		case token.GTR:
+			return b2u(l > r), true
+		case token.GEQ:
+			return b2u(l >= r), true
+		}
+	}
+	return 0, false
 }
